@@ -147,7 +147,14 @@ impl Story {
                     self.get_state().set_in_expression_evaluation(false);
                 }
                 CommandType::Duplicate => {
-                    let obj = self.get_state().peek_evaluation_stack().unwrap().clone();
+                    let obj = match self.get_state().peek_evaluation_stack() {
+                        Some(obj) => obj.clone(),
+                        None => {
+                            return Err(StoryError::InvalidStoryState(
+                                "Evaluation stack underflow: nothing to duplicate".to_owned(),
+                            ));
+                        }
+                    };
                     self.get_state_mut().push_evaluation_stack(obj);
                 }
                 CommandType::PopEvaluatedValue => {
@@ -473,6 +480,10 @@ impl Story {
                         return Err(StoryError::InvalidStoryState("Passed non-integer when creating a list element from a numerical value.".to_owned()));
                     }
 
+                    if list_name_val.is_none() {
+                        return Err(StoryError::InvalidStoryState("Passed a non-string list name when creating a list element from a numerical value.".to_owned()));
+                    }
+
                     let mut generated_list_value: Option<Value> = None;
                     if let Some(found_list_def) = self
                         .list_definitions
@@ -653,7 +664,14 @@ impl Story {
             // the temporary context, but attempt to create them globally
             // var prioritiseHigherInCallStack = _temporaryEvaluationContainer
             // != null;
-            let assigned_val = assigned_val.into_any().downcast::<Value>().unwrap();
+            let assigned_val = match assigned_val.into_any().downcast::<Value>() {
+                Ok(value) => value,
+                Err(_) => {
+                    return Err(StoryError::InvalidStoryState(
+                        "Expected a value to assign to a variable".to_owned(),
+                    ));
+                }
+            };
             self.get_state_mut()
                 .variables_state
                 .assign(var_ass, assigned_val)?;
